@@ -492,6 +492,15 @@ def arr_to_dict(tokens, conv):
     return ranges, d
 
 def analyse(args):
+    """analyse_inner, but a non-finite number in the implementation's output (which the exact arithmetic cannot convert)
+    is a finding about that case, not a crash of the check"""
+    try:
+        return analyse_inner(args)
+    except (ValueError, OverflowError, ZeroDivisionError) as e:
+        c = args[0]
+        return {"id": c["id"], "status": "non-finite", "fails": [("C09:impl:non-finite-output", "the implementation's output for this case contains a NaN or infinity (%s)" % e, {})]}
+
+def analyse_inner(args):
     """everything exact about one case; returns a dict with `fails' = list of (signature, what, detail)"""
     c, iout, mout, ref = args
     fails = []
